@@ -7,7 +7,7 @@ rnd = sys.argv[1]
 ids = sys.argv[2:]
 props = {json.loads(l)["id"]: json.loads(l) for l in open("/verif/properties.jsonl")}
 prev = {}
-for mp in sorted(glob.glob("/verif/seeded/*/meta.json")) + sorted(glob.glob("/tmp/seed4-*-out/meta.json")):
+for mp in sorted(glob.glob("/verif/seeded/*/meta.json")) + sorted(glob.glob("/tmp/seed[0-9]-*-out/meta.json")):
     m = json.load(open(mp))
     prev.setdefault(m["property"], []).append(" ".join(m["summary"].split())[:330])
 for pid in ids or sorted(props):
@@ -32,7 +32,7 @@ The code base is RisingLight, an educational OLAP SQL database (parser → binde
 Quantifier: {p['quantifier']['text']}
 Relevant source files (starting points): {', '.join(files)}
 
-Other people have already planted defects of this kind: {others}. Choose a DIFFERENT mechanism in a different function (and preferably a different file) from all of them; prefer a place none of them is near (a different layer of the system: parser/binder, planner analysis, cost model, executor, array kernels, storage format, manifest, catalog, options handling, background tasks), and a defect that needs TWO things to coincide (a particular data layout AND a particular query shape, two cooperating sites, an option AND an input, an interleaving AND a state).
+Other people have already planted defects of this kind: {others}. Choose a DIFFERENT mechanism in a different function (and preferably a different file) from all of them; do NOT touch `src/storage/secondary/merge_iterator.rs` (its merge heap has been mutated five times by others already, for several properties); prefer a place none of them is near (a different layer of the system: parser/binder, planner analysis, cost model, executor, array kernels, storage format, manifest, catalog, options handling, background tasks), and a defect that needs TWO things to coincide (a particular data layout AND a particular query shape, two cooperating sites, an option AND an input, an interleaving AND a state).
 
 Your task: design a small, realistic code change (the kind of slip a maintainer could make in a refactoring or optimisation: an off-by-one at a boundary, a dropped NULL check, a swapped branch, a wrong bound, a missing lock/flush step, a stale cached value, two sites that each look fine alone …) that BREAKS this property while
  1. the crate still compiles (`cargo build --offline` in the worktree),
